@@ -215,4 +215,53 @@ def gen_spec(stratum, rng):
                 idx = rng.sample(range(n), rng.randint(1, min(3, n)))
                 cons.append(("no_overlap", idx, [rng.randint(1, 3) for _ in idx]))
         return {"vars": _shrink_domains(vars_), "cons": cons}
+    if stratum == "planted-unique":
+        # constraints all consistent with one planted assignment and tight enough that it is (nearly) the only
+        # solution: any over-pruning by a propagator / encoder shows up as a false INFEASIBLE
+        vars_ = _vars(rng, 2, 4, 4)
+        n = len(vars_)
+        plant = [rng.randint(lb, ub) for _, lb, ub in vars_]
+        cons = []
+
+        def lin(i, coef_choices=(1, 1, 2, 3, -1, -2)):
+            k = rng.choice(coef_choices)
+            if k == 1:
+                return V(i), plant[i]
+            return (("rmul", k, V(i)) if rng.random() < 0.5 else ("mul", V(i), k)), k * plant[i]
+
+        tries = 0
+        while len(cons) < rng.randint(3, 6) and tries < 40:
+            tries += 1
+            r = rng.random()
+            i, j = rng.randrange(n), rng.randrange(n)
+            if r < 0.3:
+                # a*x + b*y (+ c) == value at plant
+                (e1, v1), (e2, v2) = lin(i), lin(j)
+                c = _small(rng)
+                left = ("add", ("add", e1, e2), C(c)) if c else ("add", e1, e2)
+                cons.append(("rel", "eq", left, C(v1 + v2 + c)))
+            elif r < 0.65:
+                # a*x + b*y != value that the plant does not take, close to it
+                (e1, v1), (e2, v2) = lin(i), lin(j)
+                off = rng.choice([-2, -1, 1, 2, 3])
+                left = ("add", e1, e2) if rng.random() < 0.7 else ("sub", e1, ("rmul", -1, e2)) if False else ("add", e1, e2)
+                cons.append(("rel", "ne", left, C(v1 + v2 + off)))
+            elif r < 0.8:
+                # x + c != y + d (native shape), true at the plant
+                c, d = _small(rng), _small(rng)
+                if plant[i] + c != plant[j] + d and i != j:
+                    cons.append(("rel", "ne", ("add", V(i), C(c)), ("add", V(j), C(d))))
+            elif r < 0.9:
+                cons.append(("rel", "eq", ("add", V(i), C(plant[j] - plant[i])), V(j)) if i != j else ("rel", "eq", V(i), C(plant[i])))
+            else:
+                # forbid a neighbouring value of one variable
+                w = plant[i] + rng.choice([-1, 1])
+                cons.append(("rel", "ne", V(i), C(w)))
+        # pin the remaining freedom with value exclusions so that few solutions survive
+        for i, (_, lb, ub) in enumerate(vars_):
+            for w in range(lb, ub + 1):
+                if w != plant[i] and rng.random() < 0.5:
+                    cons.append(("rel", "ne", ("rmul", 2, V(i)), C(2 * w)) if rng.random() < 0.3 else ("rel", "ne", V(i), C(w)))
+        rng.shuffle(cons)
+        return {"vars": _shrink_domains(vars_), "cons": cons}
     raise ValueError(stratum)
